@@ -18,3 +18,7 @@
   (=> (and (<= 0 p) (< p (str.len s)))
       (= (cols_upto s (+ p (utf8_width s p))) (+ (cols_upto s p) (ite (= (utf8_rune s p) 9) 8 1))))
   :pattern ((utf8_width s p)))))
+; strcount(s, t) = strings.Count(s, t): "the number of non-overlapping instances of substr in s" - kept uninterpreted
+; (1 + strcount(prefix, "\n") is the definition of "line number" used by the contracts); only its range (0 .. len(s)+1) is stated.
+(declare-fun strcount (String String) Int)
+(assert (forall ((s String) (t String)) (! (and (>= (strcount s t) 0) (<= (strcount s t) (+ (str.len s) 1))) :pattern ((strcount s t)))))
